@@ -4,6 +4,7 @@ import (
 	"go/ast"
 	"go/token"
 	"go/types"
+	"sync"
 )
 
 // autoPure reports whether a repository function can be shown, by a syntactic
@@ -11,6 +12,14 @@ import (
 // to it leaves the caller's heap unchanged). Used only for callees WITHOUT a
 // contract; results stay unconstrained. The check is conservative.
 func (p *Program) autoPure(key string) bool {
+	pureMu.Lock()
+	defer pureMu.Unlock()
+	return p.autoPureLocked(key)
+}
+
+var pureMu sync.Mutex
+
+func (p *Program) autoPureLocked(key string) bool {
 	if p.pureMemo == nil {
 		p.pureMemo = map[string]int{}
 	}
@@ -121,7 +130,7 @@ func (p *Program) bodyPure(fi *FuncInfo) bool {
 				if sp := p.Specs.Funcs[k]; sp != nil && (sp.Pure || (sp.Modifies != nil && len(sp.Modifies) == 0 && !sp.ModAll)) {
 					return true
 				}
-				if p.autoPure(k) {
+				if p.autoPureLocked(k) {
 					return true
 				}
 			}
